@@ -96,6 +96,27 @@ def run(ctx):
                 hits[c2] = hits.get(c2, 0) + 1
             else:
                 unexpl.append(({"name": "Content-Disposition", "value": cl_[k]}, det))
+    # Content-Type built from caller-supplied text (file names, custom parameters, boundaries): same encoder, same byte rules
+    pvals = ["a", "Grüße.pdf", "é", "😀", "x" * 60, "é" * 30, "a b", "файл", "a;b", "naïve file (1).txt", "=?x?=", "a\tb"] + ["w" * k + "é" for k in (40, 55, 56, 57, 58, 70)]
+    ctexts = ['%s; %s="%s"' % (t, p_, v) for t in ("text/plain", "application/pdf", "multipart/mixed") for p_ in ("name", "boundary", "x-custom") for v in pvals]
+    ctexts += ['text/plain; charset=utf-8; name="%s"; x="%s"' % (a, b) for a in pvals[:6] for b in pvals[:6]] + ["text/plain", "text/plain; charset=us-ascii", 'multipart/signed; protocol="application/pgp-signature"; micalg="pgp-shé256"', "text/pläin", 'text/plain; näme="x"']
+    tl = ["hdr.ctype\t" + hx(U(t)) for t in ctexts]
+    ti = run_impl(tl)
+    ctx.count(len(tl))
+    tok = [k for k in range(len(tl)) if "\t" in ti[k]]
+    tm = run_model(["hdr.value\t%s\t%s" % (hx(b"Content-Type"), ti[k].split("\t")[0]) for k in tok])
+    tdiff = [k for k, m in zip(tok, tm) if ti[k].split("\t")[1] != m]
+    for k in tok:
+        if any(ord(c) > 126 for c in ctexts[k]):
+            ctx.nontrivial(b"ctype\0" + U(ctexts[k]))
+        for c2, det in line_findings("Content-Type", unhx(ti[k].split("\t")[1])):
+            if c2 and c2 in known:
+                hits[c2] = hits.get(c2, 0) + 1
+            else:
+                unexpl.append(({"name": "Content-Type", "value": ctexts[k]}, det))
+    for k, o in enumerate(ti):
+        if o == "PANIC":
+            unexpl.append(({"name": "Content-Type", "value": ctexts[k]}, "ContentType::parse / display panicked"))
     # one field per name, whatever the letter case of later set calls (header map operations)
     hn = ["Subject", "subject", "SUBJECT", "sUBJECT", "X-Priority", "x-priority", "X-priority", "Date", "date", "Message-ID", "Message-Id"]
     ol = []
@@ -119,12 +140,13 @@ def run(ctx):
             if len(fields) != len(set(fields)):
                 unexpl.append(({"name": "Headers", "value": ol[k][:300]}, "two fields with the same name (case-insensitively) in one header section: %r" % fields))
     ctx.cov["correspondence"] = {"hdrs.ops": {"sequences": len(ol), "disagreements": len(odiff)}, "hdr.value": {"cases": len(recs), "disagreements": len(diffs), "exhaustive_alphabet": GH.ATOMS, "exhaustive_maxlen": maxlen, "name_lengths": "1..76 x %d alignment values" % len(align_vals)},
-                                 "hdr.name": {"cases": len(nl), "disagreements": len(ndiff)}, "hdr.mailboxes": {"cases": len(ml), "disagreements": len(mdiff)}, "hdr.cdisp": {"cases": len(cl_), "disagreements": len(cdiff)}}
-    ctx.cov["oracle"] = {"rfc5322_field_splitter_and_line_judge_on_impl": {"cases": len(ok_recs) + len(mok) + len(ci), "unexplained": len(unexpl), "known_class_hits": dict(hits)},
+                                 "hdr.name": {"cases": len(nl), "disagreements": len(ndiff)}, "hdr.mailboxes": {"cases": len(ml), "disagreements": len(mdiff)}, "hdr.cdisp": {"cases": len(cl_), "disagreements": len(cdiff)},
+                                 "hdr.ctype": {"cases": len(tl), "accepted_by_the_media_type_parser": len(tok), "disagreements": len(tdiff)}}
+    ctx.cov["oracle"] = {"rfc5322_field_splitter_and_line_judge_on_impl": {"cases": len(ok_recs) + len(mok) + len(ci) + len(tok), "unexplained": len(unexpl), "known_class_hits": dict(hits)},
                          "header_name_iff_ftext": {"cases": len(nstrs), "failures": len(nbad)}}
     ctx.cov["exhaustive"] = True
     ctx.cov["rule"] = ("HeaderValue::new over all strings of up to %d atoms from %s under several names, boundary/alignment families (every code-point width at every fold offset, blank runs 0..99, words to 2000, 64 KiB values, all name lengths 1..76), "
-                       "mailbox-list headers, Content-Disposition file names, header-name constructor over a 12-symbol alphabet; model vs implementation, then the extracted RFC 5322 field splitter and a byte/line-length judge on the implementation's output; "
+                       "mailbox-list headers, Content-Disposition file names, Content-Type built from text with non-ASCII quoted parameters (name, boundary, custom; compared with the model's encoder applied to the media type string), header-name constructor over a 12-symbol alphabet; model vs implementation, then the extracted RFC 5322 field splitter and a byte/line-length judge on the implementation's output; "
                        "non-trivial = value with a non-printable/non-ASCII character or longer than 60") % (maxlen, GH.ATOMS)
     ctx.sample({"name": recs[37]["name"], "value": recs[37]["value"], "impl": recs[37]["impl"][:200]})
     for cl, n in sorted(hits.items()):
@@ -136,6 +158,8 @@ def run(ctx):
         ctx.violation({"kind": "oracle", "entry": "HeaderName::new_from_ascii", "name_hex": hx(U(nbad[0])), "what": "accepted iff printable ASCII without ':' (RFC 5322 ftext) is violated", "failures": len(nbad)})
     if odiff and not ctx.violations:
         ctx.violation({"kind": "correspondence", "fn": "hdrs.ops", "line": ol[odiff[0]][:600], "impl": oi[odiff[0]][:300], "model": om[odiff[0]][:300]}, nofail=True)
+    if tdiff and not ctx.violations:
+        ctx.violation({"kind": "correspondence", "fn": "hdr.ctype", "line": tl[tdiff[0]], "impl": ti[tdiff[0]][:400], "model": "hdr.value(Content-Type, raw) = " + tm[tok.index(tdiff[0])][:400]}, nofail=True)
     if (diffs or ndiff or mdiff or cdiff) and not ctx.violations:
         if diffs:
             r = min(diffs, key=lambda r: len(r["value"]))
